@@ -145,9 +145,8 @@ def main():
                         continue
                     M = run_query(fd, q)
                     r = triples(M)
-                    if q['kind'] in ('inc', 'adj'):
-                        # the element order the columns refer to
-                        r['elem_ids'] = [int(x) for x in fd.elements.ids]
+                    # the element order the columns / elemental vertices refer to
+                    r['elem_ids'] = [int(x) for x in fd.elements.ids]
                 except Exception as e:  # noqa
                     r = {'exc': type(e).__name__, 'msg': str(e)[:200]}
                 res.append(r)
